@@ -129,7 +129,14 @@ def r_candc(repo, rep, R='R15.1'):
     s2 = set_calls(xo)
     ok = any({'sentence', 'id'} <= set(a) for a in s2.values())
     rep.check(ok, R, '%s:%s xml_of' % (PX, xo.lineno), 'candc:ccg-attrs', 'each ccg element carries its sentence number and n-best rank', 'ccg attributes are %s' % {k: sorted(v) for k, v in s2.items()})
-    rep.check('tree[0]' in src(rx), R, '%s:%s read_xml' % (RD, rx.lineno), 'candc:root', 'the reader takes the single child of ccg as the derivation root', 'reader does not descend into ccg[0]')
+    # the derivation root is the single child of a <ccg> element: the loop variable over the selected ccg elements, at [0]
+    root_ok = False
+    for l in [x for x in ast.walk(rx) if isinstance(x, ast.For) and isinstance(x.target, ast.Name)]:
+        v_ = l.target.id
+        if any(isinstance(n, ast.Subscript) and isinstance(n.value, ast.Name) and n.value.id == v_ and isinstance(n.slice, ast.Constant) and n.slice.value == 0
+               for n in ast.walk(l)):
+            root_ok = True
+    rep.check(root_ok, R, '%s:%s read_xml' % (RD, rx.lineno), 'candc:root', 'the reader takes the single child of ccg as the derivation root', 'reader does not descend into ccg[0]')
 
 
 def r_jigg(repo, rep, R='R15.2'):
